@@ -3,7 +3,9 @@
 
   py2lean.py <repo> > NodeIdGen.lean
 
-Functions: value_parser.cached_parse_nodeid, value_parser.parse_nodeid, ua_data_types.UANodeId.__str__.
+Functions: value_parser.cached_parse_nodeid, value_parser.parse_nodeid, ua_data_types.UANodeId.__str__,
+nodeset_parser.extend_namespace_map (procedure mode: a loop that mutates its list and dict arguments becomes a fold
+returning their final values).
 Subset: assignments (names, 2-tuples), if / else, return, raise, string and int constants, ==, `in` on a dict,
 indexing by a constant, str.split(sep, maxsplit=1), lstrip, startswith, int(), str(), len(), NodeIdType(..),
 UANodeId(..), dict indexing, str.format on a literal (error messages only).  Anything else -> Unsupported (exit 3).
@@ -222,6 +224,83 @@ class Tr:
         return bool(stmts) and isinstance(stmts[-1], (ast.Return, ast.Raise))
 
 
+
+class TrProc(Tr):
+    """procedures that mutate their list / dict arguments and return nothing: the translation returns the
+    final values of the mutated parameters.  Statements: `if c: <mutations>` (no else), `xs.append(e)`,
+    `d[k] = e`, calls on `logger` (ignored), `for i, x in enumerate(xs): <mutations>`."""
+
+    def mutated(self, stmts):
+        out = []
+        for s in stmts:
+            if isinstance(s, ast.Expr) and isinstance(s.value, ast.Call) and isinstance(s.value.func, ast.Attribute) \
+                    and s.value.func.attr == "append" and isinstance(s.value.func.value, ast.Name):
+                out.append(s.value.func.value.id)
+            elif isinstance(s, ast.Assign) and len(s.targets) == 1 and isinstance(s.targets[0], ast.Subscript) \
+                    and isinstance(s.targets[0].value, ast.Name):
+                out.append(s.targets[0].value.id)
+            elif isinstance(s, ast.If):
+                out += self.mutated(s.body) + self.mutated(s.orelse)
+            elif isinstance(s, ast.For):
+                out += self.mutated(s.body)
+        return list(dict.fromkeys(out))
+
+    def expr(self, e):
+        if isinstance(e, ast.Compare) and len(e.ops) == 1 and isinstance(e.ops[0], (ast.In, ast.NotIn)):
+            b1, a = Tr.expr(self, e.left)
+            b2, c = Tr.expr(self, e.comparators[0])
+            t = "(pyContains %s %s)" % (c, a)
+            return b1 + b2, t if isinstance(e.ops[0], ast.In) else "(!%s)" % t
+        if isinstance(e, ast.BinOp) and isinstance(e.op, ast.Add) and isinstance(e.right, ast.Constant) and isinstance(e.right.value, int):
+            b, a = self.expr(e.left)
+            return b, "(%s + %d)" % (a, e.right.value)
+        if isinstance(e, ast.Call) and isinstance(e.func, ast.Attribute) and e.func.attr == "index" and len(e.args) == 1:
+            b, recv = self.expr(e.func.value)
+            b2, a = self.expr(e.args[0])
+            t = self.fresh()
+            return b + b2 + [(t, "pyListIndex %s %s" % (recv, a))], t
+        return Tr.expr(self, e)
+
+    def stmts(self, body, ind, final):
+        """sequence of mutations, then `final` (a term of type Except PyErr _)"""
+        pad = "  " * ind
+        if not body:
+            return "%s%s\n" % (pad, final)
+        s, rest = body[0], body[1:]
+        if isinstance(s, ast.Expr) and isinstance(s.value, ast.Constant):
+            return self.stmts(rest, ind, final)
+        if isinstance(s, ast.Expr) and isinstance(s.value, ast.Call):
+            f = s.value.func
+            if isinstance(f, ast.Attribute) and isinstance(f.value, ast.Name) and f.value.id == "logger":
+                return self.stmts(rest, ind, final)          # logging has no effect on the result
+            if isinstance(f, ast.Attribute) and f.attr == "append" and isinstance(f.value, ast.Name) and len(s.value.args) == 1:
+                b, a = self.expr(s.value.args[0])
+                return self.binds(b, "%slet %s := pyListAppend %s %s\n" % (pad, f.value.id, f.value.id, a) + self.stmts(rest, ind, final), ind)
+            raise Unsupported("expression statement")
+        if isinstance(s, ast.Assign) and len(s.targets) == 1 and isinstance(s.targets[0], ast.Subscript) and isinstance(s.targets[0].value, ast.Name):
+            d = s.targets[0].value.id
+            b1, k = self.expr(s.targets[0].slice)
+            b2, v = self.expr(s.value)
+            return self.binds(b1 + b2, "%slet %s := pyDictSet %s %s %s\n" % (pad, d, d, k, v) + self.stmts(rest, ind, final), ind)
+        if isinstance(s, ast.If) and not s.orelse:
+            vs = self.mutated(s.body)
+            tup = vs[0] if len(vs) == 1 else "(" + ", ".join(vs) + ")"
+            b, c = self.expr(s.test)
+            inner = self.stmts(s.body, ind + 2, ".ok %s" % tup)
+            txt = "%sbindE (if %s then\n%s%s  else .ok %s) fun %s =>\n" % (pad, c, inner, pad, tup, tup)
+            return self.binds(b, txt + self.stmts(rest, ind, final), ind)
+        if isinstance(s, ast.For) and isinstance(s.iter, ast.Call) and isinstance(s.iter.func, ast.Name) and s.iter.func.id == "enumerate" \
+                and isinstance(s.target, ast.Tuple) and len(s.target.elts) == 2 and not s.orelse:
+            i, x = s.target.elts[0].id, s.target.elts[1].id
+            b, xs = self.expr(s.iter.args[0])
+            vs = self.mutated(s.body)
+            tup = vs[0] if len(vs) == 1 else "(" + ", ".join(vs) + ")"
+            inner = self.stmts(s.body, ind + 2, ".ok %s" % tup)
+            txt = "%sbindE (pyEnumFoldE %s %s fun (%s : Nat) %s %s =>\n%s%s  ) fun %s =>\n" % (pad, xs, tup, i, x, tup, inner, pad, tup)
+            return self.binds(b, txt + self.stmts(rest, ind, final), ind)
+        raise Unsupported("statement " + type(s).__name__)
+
+
 def find(tree, qual):
     body, node = tree.body, None
     for p in qual.split("."):
@@ -251,6 +330,16 @@ def main():
         out.append("/-- `UANodeId.__str__` -/")
         out.append("def nodeid_str (self : NodeId) : Except PyErr Str :=")
         out.append(Tr({"namespace": "ns", "value": "ident", "nodeid_type": "ty"}).block(f.body, 1))
+        if True:
+            npm = ast.parse(open(os.path.join(repo, "opcua_tools", "nodeset_parser.py"), encoding="utf-8").read())
+            f = find(npm, "extend_namespace_map")
+            a = [x.arg for x in f.args.args]
+            tr = TrProc()
+            vs = tr.mutated(f.body)
+            out.append("/-- `nodeset_parser.extend_namespace_map`: returns the final values of the arguments it mutates -/")
+            out.append("def extend_namespace_map (%s : List Str) (%s : List Str) (%s : List (Int × Int)) : Except PyErr (%s) :=" %
+                       (a[0], a[1], a[2], " × ".join("List Str" if v == a[0] else "List (Int × Int)" for v in vs)))
+            out.append(tr.stmts(f.body, 1, ".ok (%s)" % ", ".join(vs)))
     except Unsupported as u:
         print("UNSUPPORTED: %s" % u, file=sys.stderr)
         sys.exit(3)
